@@ -493,6 +493,7 @@ func checkC14(c *Ctx) {
 	c.Set("rule", "behaviour = complete Apply run over one list emitted by TLC (per callback: cursor operations and return value), executed on dstutil.Apply and astutil.Apply; non-trivial = at least one cursor operation; distinct by list kind + script")
 	c14Traversal(c)
 	c14RootReplace(c)
+	c14Positions(c)
 }
 
 func init() {
